@@ -197,9 +197,22 @@ def run_harness(h, params, tier, seed):
                                               "what": "real code raised %s on the solver's inputs" % rp["exception"][:200],
                                               "inputs": {k: _jsonable(v) for k, v in r.model.items()}})
                 else:
-                    bn["inconclusive"] += 1
-                    res["inconclusive"] += 1
-                    res["nonrepro"].append({"name": r.name, "concrete": rp, "inputs": {k: _jsonable(v) for k, v in r.model.items()}})
+                    # the exact-arithmetic witness did not survive floating point: look for a dyadic one
+                    found = False
+                    for mdl in solve.dyadic_models(ctx, getattr(r, "q", None)):
+                        rp2 = replay_concrete(h, bparams, mdl)
+                        if any(n == r.name for n, _ in rp2["violated"]) or (rp2["exception"] and not rp2["rejected"]):
+                            path = write_replay(h, bparams, tier, r.name, r.occ, mdl, "obligation")
+                            bn["violated"] += 1
+                            res["violations"].append({"key": "%s/%s" % (h.id, r.name), "replay": path,
+                                                      "what": "obligation '%s' false on the real code (dyadic witness)" % r.name,
+                                                      "inputs": {k: _jsonable(v) for k, v in mdl.items()}})
+                            found = True
+                            break
+                    if not found:
+                        bn["inconclusive"] += 1
+                        res["inconclusive"] += 1
+                        res["nonrepro"].append({"name": r.name, "concrete": rp, "inputs": {k: _jsonable(v) for k, v in r.model.items()}})
     res["axioms"] = sorted(axioms)
     # --- shim validation: concrete run on plain numpy vs. evaluated symbolic terms
     rng = np.random.default_rng(seed)
